@@ -9,7 +9,8 @@ class KFree:
     def __init__(self, rng, price=100, cancels=True, amends=True):
         self.rng, self.price = rng, price
         self.book = []     # [id, qty] in arrival order
-        self.nid, self.ts = 1, 10
+        self.nid = 1
+        self.ts = rng.choice([10, 10, 1_790_000_000_000, 1_790_000_000_000_000_000, (1 << 48) - 20, (1 << 64) - 5000])
         self.cancels, self.amends = cancels, amends
 
     def add(self):
